@@ -362,3 +362,9 @@ def check(cx):
     from . import c01
     cx.include(c01, {"C01.6"}, "C16.10", "shared with C01.6: the log append (the step that can reject an oversized record) comes before the B-tree write; "
                "a statement that fails at the append after writing the row leaves that row behind in the session", floor=3)
+
+    # ---- C16.11 (construct shared with C14.5) --------------------------------------------------------------------------
+    from . import c14
+    cx.include(c14, {"C14.5"}, "C16.11", "shared with C14.5: a statement that panics on a pool worker is reported to its client as an error - the job "
+               "sends its result on every path, the worker survives, and the waiting submitter owns no Sender of its own, so the channel "
+               "closes and recv fails instead of blocking forever", floor=5)
